@@ -248,7 +248,6 @@ def trimming(report, tier):
                             bad.append((probs, {k_: int(x) for k_, x in model.items() if x is not None}))
                 except Inconclusive as e:
                     report.inconc(name, str(e))
-                solver.STATS.queries += q
                 report.record(name, 'unsat' if not bad else 'sat', backend='z3py-inproc', sha=f"{paths}p{q}q:{order}{rank}{k}",
                               group='edge trimming helpers (symbolic lengths)')
                 for probs, model in bad[:1]:
